@@ -673,6 +673,48 @@ macro_rules! new_graph_items {
         fn index_both(g: &G, k: usize) -> (usize, usize) { (*g[k].key(), *g[k].key()) }
     };
 }
+macro_rules! delegate {
+    (yes, $n:ident, $op:ident) => {{
+        let (a, b, e, kind) = ($n($op.a), $n($op.b), $op.e, $op.kind.clone());
+        let (tx, rx) = std::sync::mpsc::channel::<String>();
+        std::thread::spawn(move || {
+            let r = match kind.as_str() {
+                "hc" => {
+                    a.connect(&b, e);
+                    "ok".to_string()
+                }
+                "hd" => match a.disconnect(b.key()) {
+                    Ok(e) => format!("ok_{e}"),
+                    Err(_) => "err_notfound".to_string(),
+                },
+                _ => {
+                    a.isolate();
+                    "ok".to_string()
+                }
+            };
+            let _ = tx.send(r);
+        });
+        // (a helper that never answers stays behind; the case has failed by then)
+        rx.recv_timeout(std::time::Duration::from_secs(3)).unwrap_or_else(|_| "HUNG".to_string())
+    }};
+    (no, $n:ident, $op:ident) => {{
+        // plain flavours cannot hand a node to another thread: the mutation itself
+        match $op.kind.as_str() {
+            "hc" => {
+                $n($op.a).connect(&$n($op.b), $op.e);
+                "ok".to_string()
+            }
+            "hd" => match $n($op.a).disconnect(&$op.b) {
+                Ok(e) => format!("ok_{e}"),
+                Err(_) => "err_notfound".to_string(),
+            },
+            _ => {
+                $n($op.a).isolate();
+                "ok".to_string()
+            }
+        }
+    }};
+}
 macro_rules! ext_mod {
     ($m:ident, $fl:ident, $kind:ident, $ckind:ident, $conc:ident, $ecmp:ident, $ng:ident) => {
         pub mod $m {
@@ -725,6 +767,8 @@ macro_rules! ext_mod {
                         n(op.a).isolate();
                         "ok".into()
                     }
+                    // the same mutations handed to another thread by the closure, which waits for the answer
+                    "hc" | "hd" | "hx" => delegate!($conc, n, op),
                     "q" => format!("{}", n(op.a).is_connected(&op.b) as u8),
                     "s" => match nested_search(&n(op.a), op.b) {
                         Some(l) => format!("len={l}"),
@@ -873,7 +917,11 @@ macro_rules! ext_mod {
                                 }
                                 if let Some(sc) = &script {
                                     for op in crate::exec_cont::ops_at(sc, i) {
-                                        sres.borrow_mut().push(script_op(st, &g0, &op));
+                                        let r = script_op(st, &g0, &op);
+                                        if r == "HUNG" && sfail.borrow().is_none() {
+                                            *sfail.borrow_mut() = Some(format!("`{}.{}.{}`: a mutation the closure handed to another thread had not returned after 3 s while the closure waited for it (deadlock)", op.kind, op.a, op.b));
+                                        }
+                                        sres.borrow_mut().push(r);
                                         sops.borrow_mut().push(op);
                                     }
                                 }
@@ -975,7 +1023,11 @@ macro_rules! ext_mod {
                             }
                             yielded.push(tri);
                             for op in crate::exec_cont::ops_at(&script, i) {
-                                res.push(script_op(st, &g0, &op));
+                                let r = script_op(st, &g0, &op);
+                                if r == "HUNG" && bad.is_none() {
+                                    bad = Some(format!("`{}.{}.{}`: a mutation the loop body handed to another thread had not returned after 3 s while the body waited for it (deadlock)", op.kind, op.a, op.b));
+                                }
+                                res.push(r);
                             }
                             yielded.len() < 300
                         });
